@@ -11,7 +11,7 @@ from __future__ import annotations
 import ast
 
 from ..cfg import cfg_of
-from ..flow import flow_of, path_of
+from ..flow import deref, flow_of, path_of
 from ..loader import FUNC, AnalysisError, dotted, last_name, loc, short, walk_local
 from ..util import REPEX, SCHED, SETUP, keys_chain, kwarg
 from ..variants import B, K
@@ -317,6 +317,65 @@ def r183(ctx):
     restart_preserves_settings(RuleProxy(ctx, "R-18.3"), "R-18.3", " (setup_config is not idempotent on its own output)")
 
 
+def r186(ctx):
+    """Iteration-space completeness of the 'engine defined' clause: the list whose elements are
+    tested against the configuration's sections is built from *every* name in every ensemble's
+    engine list - the collecting loops are not left early and a name is skipped only when it is
+    already in the list."""
+    rid = "R-18.6"
+    tree = ctx.tree
+    f = tree.func(SETUP, "check_config")
+    fl = flow_of(f)
+    cfg = fl.cfg
+    # the clause: for K in U: if K not in config(.keys()): raise
+    U = None
+    for L in [x for x in walk_local(f) if isinstance(x, ast.For) and isinstance(x.iter, ast.Name) and isinstance(x.target, ast.Name)]:
+        for r in [y for y in ast.walk(L) if isinstance(y, ast.Raise)]:
+            for e, t, _ in cfg.guards(cfg.node_of(r)):
+                if isinstance(e, ast.Compare) and len(e.ops) == 1 and isinstance(e.ops[0], (ast.NotIn, ast.In)) and isinstance(e.left, ast.Name) and e.left.id == L.target.id and "config" in ast.unparse(e.comparators[0]):
+                    U = L.iter.id
+    if U is None:
+        raise AnalysisError("R-18.6: the loop that tests every engine name against the configuration was not found")
+    apps = [c for c in walk_local(f) if isinstance(c, ast.Call) and isinstance(c.func, ast.Attribute) and c.func.attr in ("append", "add") and isinstance(c.func.value, ast.Name) and c.func.value.id == U and c.args]
+    if not apps:
+        # a comprehension / set built in one expression visits every element by construction
+        defs = [d for d in fl.defs if d.path == U and d.kind == "assign" and d.value is not None]
+        if defs and all(isinstance(d.value, (ast.ListComp, ast.SetComp, ast.Call)) and "ensemble_engines" in ast.unparse(d.value) for d in defs):
+            ctx.ok(rid, defs[0].stmt, f"`{U}` is built in one expression over ensemble_engines: every name is collected")
+            return
+        raise AnalysisError(f"R-18.6: no statement that adds names to `{U}` found")
+    for c in apps:
+        loops = []
+        n = getattr(c, "_parent", None)
+        while n is not None and n is not f:
+            if isinstance(n, ast.For):
+                loops.append(n)
+            n = getattr(n, "_parent", None)
+        if len(loops) < 2:
+            raise AnalysisError("R-18.6: the collecting statement is not inside a loop over the ensembles and their engine lists")
+        inner, outer = loops[0], loops[1]
+        src, _ = deref(fl, outer.iter, cfg.node_of(outer))
+        ok_space = "ensemble_engines" in ast.unparse(src) and isinstance(inner.iter, ast.Name) and isinstance(outer.target, ast.Name) and inner.iter.id == outer.target.id \
+            and isinstance(inner.target, ast.Name) and isinstance(c.args[0], ast.Name) and c.args[0].id == inner.target.id
+        if not ok_space:
+            ctx.bad(rid, c, f"`{U}` is not filled from every element of every list in simulation.ensemble_engines", construct=short(c, 60))
+            continue
+        early = [x for x in ast.walk(outer) if isinstance(x, (ast.Break, ast.Return))]
+        facts = [(e, t) for e, t, bn in cfg.guards(cfg.node_of(c)) if any(bn.ast is y for y in ast.walk(outer))]
+        other = []
+        for e, t in facts:
+            mem = isinstance(e, ast.Compare) and len(e.ops) == 1 and isinstance(e.ops[0], (ast.In, ast.NotIn)) and isinstance(e.left, ast.Name) and e.left.id == inner.target.id \
+                and isinstance(e.comparators[0], ast.Name) and e.comparators[0].id == U and (t == isinstance(e.ops[0], ast.NotIn))
+            if not mem:
+                other.append(short(e, 40))
+        if early:
+            ctx.bad(rid, early[0], f"the loops that collect the engine names leave early (`{short(early[0], 20)}`): names listed after that point in simulation.ensemble_engines are never tested against the configuration's engine sections, so an undefined engine is accepted and fails later with a KeyError", construct="engine collection loop left early")
+        elif other:
+            ctx.bad(rid, c, f"an engine name is collected only under {other}: names for which that does not hold are never validated", construct="engine collection guard")
+        else:
+            ctx.ok(rid, c, "every name of every ensemble's engine list is collected (skipped only when already collected) and tested against the configuration")
+
+
 def run(ctx):
     ctx.rule("R-18.5", "every configuration key is validated and used under the same section path", floor=20)
     ctx.rule("R-18.4", "no `for` variable of the configuration checks is read after its loop has ended", floor=3)
@@ -326,12 +385,16 @@ def run(ctx):
     ctx.attempt(r181, ctx)
     ctx.attempt(r182, ctx)
     ctx.attempt(r183, ctx)
+    ctx.rule("R-18.6", "the engine-defined clause covers every name of every ensemble's engine list (collection loops not left early)", floor=1)
+    ctx.attempt(r186, ctx)
     from .shared import stale_loop_variable, config_section_agreement
     ctx.attempt(config_section_agreement, ctx, "R-18.5", " - the setting is validated in one section and used from another")
     ctx.attempt(stale_loop_variable, ctx, "R-18.4", [SETUP], None, " (a clause would validate only the last element)")
 
 
 VARIANTS = [
+    B("c18-engine-collection-breaks", SETUP, "            if engine not in unique_engines:\n                unique_engines.append(engine)", "            if engine in unique_engines:\n                break\n            unique_engines.append(engine)", "R-18.6", control=True, why="seeded C18_g"),
+    K("c18-keep-engine-collection-continue", SETUP, "            if engine not in unique_engines:\n                unique_engines.append(engine)", "            if engine in unique_engines:\n                continue\n            unique_engines.append(engine)"),
     B("c18-cap-checked-in-wrong-section", SETUP, 'intf_cap = config["simulation"]["tis_set"].get("interface_cap", False)', 'intf_cap = config["simulation"].get("interface_cap", False)', "R-18.5", control=True),
     B("c18-wf-clause-after-loop", SETUP, "        for idx, intf_i in enumerate(intf[:-1]):\n            if sh_moves[idx + 1] == \"wf\" and intf_cap <= intf_i:\n                raise TOMLConfigError(\n                    f\"Interface_cap {intf_cap} leaves no room for the 'wf' \"\n                    f\"ensemble with interface {intf_i}\"\n                )", "        for idx, intf_i in enumerate(intf[:-1]):\n            pass\n        if sh_moves[idx + 1] == \"wf\" and intf_cap <= intf_i:\n            raise TOMLConfigError(\n                f\"Interface_cap {intf_cap} leaves no room for the 'wf' \"\n                f\"ensemble with interface {intf_i}\"\n            )", "R-18.4", control=True),
     B("c18-unsorted-accepted", SETUP, '        raise TOMLConfigError("Your interfaces are not sorted!")', '        logger.info("Your interfaces are not sorted!")', "R-18.1", control=True),
